@@ -952,8 +952,10 @@ static void checkC20(Ctx& c, long i, Rng& r) {
             pBest = std::max(0.5 * std::log2(e[k - 2] / e[k]), std::log2(e[k - 1] / e[k]));
             if (pBest >= pDoc - 0.3) break;
         }
-        // still (slightly) deficient but the next halving is already at the round-off floor: cannot decide
-        if (floorHit && pBest < pDoc - 0.3) { c.skip("order:deficient-at-coarse-steps,refinement-hits-roundoff-floor"); return; }
+        // marginally deficient (0.3..0.6 below) but the next halving is already at the round-off floor: cannot
+        // decide whether the asymptotic regime was reached. A deficit of more than 0.6 at the finest measurable
+        // pair is judged.
+        if (floorHit && pBest < pDoc - 0.3 && pBest >= pDoc - 0.6) { c.skip("order:marginally-deficient,refinement-hits-roundoff-floor"); return; }
         c.cover(name + "|" + cls + "|fixed-step-order");
         if (kUsed > 2) c.obs("order:extra-halvings-needed:" + name);
         if (calib) fprintf(stderr, "CAL B %s %s pDoc=%d p02=%.3f p01=%.3f p12=%.3f kUsed=%d rh=%.3g\n", name.c_str(), cls.c_str(), pDoc, pBest, p01, pBest, kUsed, rh);
